@@ -20,7 +20,8 @@ EXPLANATION = (
     "d and is returned only on the is_ok side; (R12.7) the positional fallback obeys the positional-metric clauses of "
     "SORT (C02 R02.1: gate, weight, and the confidence floor applied to the DETECTION's confidence); R12.6 includes "
     "the wiring of the vote quorum (VisualVoting::new receives visual_min_votes) in both trackers."
-    ' R12.3 also requires that the track taken out of the positional stage is the very track reported as won by appearance; (R12.10) the observation constructor stores feature, quality, box and custom id unchanged and VisualMetricBuilder::build hands every configured threshold / bound over unchanged; (R12.11) the euclidean / cosine distances the votes are counted on satisfy the clauses of C16.')
+    ' R12.3 also requires that the track taken out of the positional stage is the very track reported as won by appearance; (R12.10) the observation constructor stores feature, quality, box and custom id unchanged and VisualMetricBuilder::build hands every configured threshold / bound over unchanged; (R12.11) the euclidean / cosine distances the votes are counted on satisfy the clauses of C16.'
+    ' (R12.12) the count that gates appearance matching is maintained by the gallery bookkeeping of C13 (retain / sort / evict / push / recount); R12.11 includes the padding clause of the packing routine.')
 NOT_DECIDED = ["vote arithmetic and gallery contents for concrete inputs", "feature distance numerics (C16, N/A)"]
 ASSUMPTIONS = ["itertools::tee duplicates the stream", "rustc nightly MIR construction"]
 
